@@ -177,6 +177,7 @@ bool AnalyzerInformation::analyzeFile(const std::string &buildDir, const std::st
         if (xmlError == tinyxml2::XML_SUCCESS) {
             const std::string err = skipAnalysis(analyzerInfoDoc, hash, errors);
             if (err.empty()) {
+                VERIF_EVT("AiHit", verif::kv("afile", analyzerInfoFile) + verif::kv("src", sourcefile) + verif::kv("hash", hash) + verif::kv("n", static_cast<long>(errors.size())));
                 if (debug)
                     std::cout << "skipping analysis - loaded " << errors.size() << " cached finding(s) from '" << analyzerInfoFile << "' for '" << sourcefile <<  "'" << std::endl;
                 return false;
